@@ -81,6 +81,8 @@ pub struct Instance {
     pub isi_via_handshake: bool,
     /// the write half offers only {1 byte, everything} (long write sequences)
     pub accept_few: bool,
+    /// the async transport supports gathering writes (TcpStream does)
+    pub vectored: bool,
     /// compare with the other implementation on histories both can execute
     pub differential: bool,
 }
@@ -111,6 +113,7 @@ impl Instance {
             preamble: vec![],
             isi_via_handshake: false,
             accept_few: false,
+            vectored: false,
             differential: false,
         }
     }
